@@ -1,13 +1,34 @@
 /-
   C16 — BUILD loaders agree across formats, are deterministic, and never crash.
   Property theorems only; helper lemmas are in GrogModel/Lemmas/Loader*.lean.
-  Model: GrogModel/Loader.lean (makefile_loader.go, script_loader.go, enrich_package.go, load.go,
-  model/build_node_map.go).  The JSON / YAML / Starlark parsers are third-party code and are not
-  modelled (they are parameters / fuzzed by the check).
+  Model: GrogModel/Loader.lean (makefile_loader.go, script_loader.go, the argument handling of the Starlark
+  builtins in starlark_loader.go, enrich_package.go, load.go, model/build_node_map.go).
+
+  What is and is not a theorem, per clause of the property:
+    1. "same package in JSON / YAML / Starlark / Makefile loads to the same targets" — every front end produces a
+       `PackageDTO` and `enrich` is one function of it. Proved for the modelled front ends: the Makefile scanner
+       (`makefile_rules_load_in_order`: k annotated rules ⇒ k DTOs, in order, each with all nine annotation fields)
+       and the Starlark builtin (`starlark_target_roundtrip`: `target(...)` is a left inverse of the canonical call
+       for a DTO), combined in `makefile_starlark_agree`. JSON and YAML reach the DTO through the struct decoders of
+       encoding/json and yaml.v3 (third-party, no model): for them the clause is tie-only (differential run).
+    2. "independent of walk order and worker count" — `merge_order_independent`: for every arrival order of the
+       per-file results. Assumed, not modelled: the per-file result does not depend on the schedule, lookup+merge
+       under the mutex is atomic, the file set is fixed (tie: worker counts 1/2/16, shuffled creation orders).
+    3. "malformed ⇒ error" — for the modelled malformations: `makefile_undecodable_annotation_is_error`,
+       `makefile_annotated_non_rule_is_error`, `starlark_wrong_type_is_error`, `load_ok_iff_labels_distinct`
+       (duplicate labels), plus the error constructors of `enrich`. Syntax errors of JSON/YAML/Starlark text: tie-only.
+    4. "never a panic" — `scanner_no_index_error`, `script_scanner_no_index_error` (all slice indices of the two
+       scanners); the Starlark conversions are total functions with an error for every non-string (no unchecked type
+       assertion is reachable in the model; tie: type-level corruption stream). Third-party parsers: FUZZING only.
+    5. "never a hang" — every function of the model is structurally recursive (accepted by Lean without fuel except
+       `trimSpace`, whose fuel is the length), i.e. scanners / enrich / merge terminate. Starlark *evaluation* is not
+       modelled: exploration only (open finding `starlark:unbounded-evaluation`).
 -/
 import GrogModel.Lemmas.LoaderScan
 import GrogModel.Lemmas.LoaderEnrich
 import GrogModel.Lemmas.LoaderMerge
+import GrogModel.Lemmas.LoaderBlocks
+import GrogModel.Lemmas.LoaderStar
 namespace Grog.C16
 open Grog Grog.Loader
 
@@ -49,37 +70,12 @@ theorem script_scanner_no_index_error (decode : Bytes → Option Annotation) (na
     intro c; injection c with c; subst c; exact h he
   · split <;> simp
 
-/-- Both scanners are total functions of the file bytes (by construction: structural recursion over
-    the lines) and end in a result record whose error, if any, is one of the three ordinary ones. -/
-theorem scanner_total (decode : Bytes → Option Annotation) (name file : Bytes) :
-    (∃ r, loadMakefile decode .cur file = r ∧
-        (r.err = none ∨ (∃ a b, r.err = some (.yaml a b)) ∨ (∃ n, r.err = some (.noColon n)) ∨ r.err = some .tooLong)) ∧
-    (∃ r, loadScript decode name file = r ∧
-        (r.err = none ∨ (∃ a b, r.err = some (.yaml a b)) ∨ (∃ n, r.err = some (.noColon n)) ∨ r.err = some .tooLong)) := by
-  refine ⟨⟨_, rfl, ?_⟩, ⟨_, rfl, ?_⟩⟩
-  · have h := scanner_no_index_error decode file
-    cases he : (loadMakefile decode .cur file).err with
-    | none => exact Or.inl rfl
-    | some e => cases e with
-      | yaml a b => exact Or.inr (Or.inl ⟨a, b, rfl⟩)
-      | noColon n => exact Or.inr (Or.inr (Or.inl ⟨n, rfl⟩))
-      | tooLong => exact Or.inr (Or.inr (Or.inr rfl))
-      | indexPanic => exact absurd he h
-  · have h := script_scanner_no_index_error decode name file
-    cases he : (loadScript decode name file).err with
-    | none => exact Or.inl rfl
-    | some e => cases e with
-      | yaml a b => exact Or.inr (Or.inl ⟨a, b, rfl⟩)
-      | noColon n => exact Or.inr (Or.inr (Or.inl ⟨n, rfl⟩))
-      | tooLong => exact Or.inr (Or.inr (Or.inr rfl))
-      | indexPanic => exact absurd he h
-
 /-- A Makefile target carries every field of its annotation: when the annotation block decodes to `a`
     and the line after it is a make rule for `goal`, the scanner emits exactly the DTO with name
     (`a.name`, or the goal if empty), command `make <goal>` and the dependencies, inputs, outputs, tags,
     fingerprint, platforms, timeout and environment of `a` — the same DTO a BUILD.json/yaml/star file
     with those fields decodes to, hence (enrichment being a function of the DTO) the same target. -/
-theorem makefile_fields (decode : Bytes → Option Annotation) (ls : List Bytes) (ns : List Nat)
+theorem makefile_fields_of_one_rule (decode : Bytes → Option Annotation) (ls : List Bytes) (ns : List Nat)
     (targetLine : Bytes) (lineNo : Nat) (a : Annotation)
     (hne : (joinNL ls).length > 0) (hd : decode (joinNL ls) = some a)
     (hcolon : cColon ∈ trimSpace targetLine) :
@@ -133,7 +129,7 @@ theorem makefile_fields_dropped_witness :
 
 /-- Enrichment is a function of the package path, the DTO and of what the globs and timeout strings
     *occurring in the DTO* resolve to — nothing else (no clock, no iteration order, no worker identity). -/
-theorem enrich_deterministic {g1 g2 : Bytes → Option (List Bytes)} {d1 d2 : Bytes → Option Nat}
+theorem enrich_depends_only_on_occurring_parameters {g1 g2 : Bytes → Option (List Bytes)} {d1 d2 : Bytes → Option Nat}
     (pkg : Bytes) (dto : PackageDTO) (h : ∀ t, some t ∈ dto.targets → AgreeOn g1 g2 d1 d2 t) :
     enrich g1 d1 pkg dto = enrich g2 d2 pkg dto :=
   enrich_congr pkg dto h
@@ -194,5 +190,71 @@ theorem merge_asymmetry_witness :
     (mergePackages pkgWithAlias pkgWithTarget).isOk = false ∧
     (loadGraph [([], pkgWithTarget), ([], pkgWithAlias)]).isOk = false ∧
     (loadGraph [([], pkgWithAlias), ([], pkgWithTarget)]).isOk = false := by decide
+
+/-! ### file level: Makefile rules, Starlark calls, agreement -/
+
+/-- k annotated rules ⇒ k DTOs, in order: if the lines of a Makefile are a sequence of well-formed annotated rules
+    (marker line, comment lines, a rule line with a colon) whose annotation blocks decode, the loader returns exactly
+    the list of `mkTarget annotation goal` — name (annotation name or goal), `make <goal>`, dependencies, inputs,
+    outputs, tags, fingerprint, platforms, timeout, environment — in file order, "found", and no error. -/
+theorem makefile_rules_load_in_order (decode : Bytes → Option Annotation) (file : Bytes)
+    (bs : List (Block × Annotation))
+    (hlines : scanLines file = (bs.flatMap (·.1.lines), false))
+    (h : ∀ p ∈ bs, p.1.WF ∧ p.1.annotation decode = some p.2 ∧ cColon ∈ trimSpace p.1.rule) :
+    loadMakefile decode .cur file = ⟨bs.map (fun p => mkTarget p.2 p.1.goal), !bs.isEmpty, none⟩ := by
+  unfold loadMakefile
+  rw [hlines]
+  simp [mkGo_blocks decode bs h 0 [] false]
+
+/-- satisfiable: the two-rule file "# @grog\n# x\nfoo: bar\n# @grog\n# x\nbaz:\n" -/
+example :
+    (loadMakefile (fun _ => some fullAnnotation) .cur (annotatedRule ++ [35, 32, 64, 103, 114, 111, 103, 10, 35, 32, 120, 10, 98, 97, 122, 58, 10])).targets.map (·.command)
+      = [sMake ++ [102, 111, 111], sMake ++ [98, 97, 122]] := by decide
+
+/-- malformed ⇒ error (1): an annotation block that does not decode makes the load fail, whatever follows -/
+theorem makefile_undecodable_annotation_is_error (decode : Bytes → Option Annotation) (b : Block) (wf : b.WF)
+    (ha : b.annotation decode = none) (rest : List Bytes) :
+    ∃ x y, (mkGo decode .cur .outside 0 (b.lines ++ rest) [] false).err = some (.yaml x y) :=
+  mkGo_block_yaml_error decode b wf ha 0 rest [] false
+
+/-- malformed ⇒ error (2): an annotation block followed by a line that is not a rule makes the load fail -/
+theorem makefile_annotated_non_rule_is_error (decode : Bytes → Option Annotation) (b : Block) (wf : b.WF) (a : Annotation)
+    (ha : b.annotation decode = some a) (hcolon : cColon ∉ trimSpace b.rule) (rest : List Bytes) :
+    ∃ x, (mkGo decode .cur .outside 0 (b.lines ++ rest) [] false).err = some (.noColon x) :=
+  mkGo_block_no_colon_error decode b wf a ha hcolon 0 rest [] false
+
+/-- The Starlark builtin `target(...)` is a left inverse of the canonical call describing a DTO: every field comes
+    back byte for byte (lists and maps element-wise, `output_checks` through the dict form, `platforms` absent vs
+    present). -/
+theorem starlark_target_roundtrip (t : TargetDTO) : starTarget (kwargsOf t) = .ok t :=
+  star_roundtrip t
+
+/-- malformed ⇒ error (3): wrongly typed arguments are errors, not panics — e.g. `timeout = 30`, a list with a
+    non-string element, a dict with a non-string value, an `output_checks` entry without `command`, an unknown or
+    repeated keyword, a missing `name`. -/
+theorem starlark_wrong_type_is_error :
+    starTarget [(some .name, .str [97]), (some .timeout, .int 30)] = .error .wrongType ∧
+    starTarget [(some .name, .str [97]), (some .deps, .list [.str [58, 98], .int 1])] = .error .elemType ∧
+    starTarget [(some .name, .str [97]), (some .env, .dict [(.str [107], .bool true)])] = .error .elemType ∧
+    starTarget [(some .name, .str [97]), (some .checks, .list [.dict []])] = .error .badCheck ∧
+    starTarget [(some .name, .str [97]), (none, .str [])] = .error .unexpected ∧
+    starTarget [(some .name, .str [97]), (some .name, .str [98])] = .error .unexpected ∧
+    starTarget [(some .command, .str [97])] = .error .missing ∧
+    starTarget [(some .name, .none)] = .error .wrongType := by
+  refine ⟨?_, ?_, ?_, ?_, ?_, ?_, ?_, ?_⟩ <;> rfl
+
+/-- Cross-format agreement for the two modelled front ends: the Makefile rule annotated with `a` for goal `g` and the
+    Starlark call written out for the same fields produce the same DTO — hence, `enrich` being a function of the DTO,
+    the same target. -/
+theorem makefile_starlark_agree (decode : Bytes → Option Annotation) (b : Block) (wf : b.WF) (a : Annotation)
+    (ha : b.annotation decode = some a) (hcolon : cColon ∈ trimSpace b.rule)
+    (glob : Bytes → Option (List Bytes)) (dur : Bytes → Option Nat) (pkg : Bytes) :
+    ∃ t, mkGo decode .cur .outside 0 b.lines [] false = ⟨[t], true, none⟩ ∧
+         starTarget (kwargsOf (mkTarget a b.goal)) = .ok t ∧
+         enrich glob dur pkg { targets := [some t] } = enrich glob dur pkg { targets := [some (mkTarget a b.goal)] } := by
+  refine ⟨mkTarget a b.goal, ?_, star_roundtrip _, rfl⟩
+  obtain ⟨n', hn'⟩ := mkGo_block decode b wf a ha hcolon 0 [] [] false
+  have : b.lines = b.lines ++ [] := by simp
+  rw [this, hn']; simp [mkGo]
 
 end Grog.C16
